@@ -102,7 +102,11 @@ func TestObjGen(t *testing.T) {
 						wire = append(wire, rest[:c])
 						rest = rest[c:]
 					}
-					if _, err := prod.cli.Produce(object.ProduceArgs{Name: nm(on), Content: wire, Version: utils.IdPtr(ver)}); err != nil {
+					pn := nm(on)
+					if rng.Intn(2) == 0 { // the caller's name slice has room behind it, as names built with append have
+						pn = append(make(enc.Name, 0, len(pn)+1+rng.Intn(5)), pn...)
+					}
+					if _, err := prod.cli.Produce(object.ProduceArgs{Name: pn, Content: wire, Version: utils.IdPtr(ver)}); err != nil {
 						panic(err)
 					}
 					w.Emit(map[string]any{"ev": "produce", "n": strs(on), "ver": ver, "hash": hsh(content), "len": sz})
